@@ -208,9 +208,22 @@ OpHalt ==
   /\ Running /\ vm.n < MaxVmSteps /\ Name = "Halt"
   /\ Stop(V(vm.final))
 
+(* an instruction this specification does not know (the instruction set was extended): no verdict *)
+KnownNames == {"Const", "True", "False", "Null", "Pop", "Not", "Negate", "Jump", "JumpIfFalse", "GetGlobal", "SetGlobal",
+               "GetLocal", "SetLocal", "Call", "Return", "ReturnValue", "CallBuiltin", "Array", "IndexGet", "IndexSet", "Halt"}
+              \cup DOMAIN BinNames \cup DOMAIN FusedNames
+OpUnknown ==
+  /\ Running /\ vm.n < MaxVmSteps /\ Name \notin KnownNames
+  /\ Stop(DK("unknown-opcode"))
+
+(* control left the code (only possible if the compiler's output is not what NlBcSafe accepts) *)
+OffCode ==
+  /\ ~vm.halted /\ vm.ip >= Len(Code)
+  /\ Stop(DK("off-code"))
+
 Next == Budget \/ OpConst \/ OpPush \/ OpPop \/ OpBinary \/ OpUnary \/ OpFused \/ OpJump \/ OpJumpIfFalse
         \/ OpGlobal \/ OpLocal \/ OpCall \/ OpReturn \/ OpCallBuiltin \/ OpArray \/ OpIndexGet \/ OpIndexSet
-        \/ OpHalt
+        \/ OpHalt \/ OpUnknown \/ OffCode
 
 vars == <<pid, vm>>
 Spec == Init /\ [][Next]_vars
